@@ -69,7 +69,7 @@ CHECKS = {
                   "explored by TLC; every derivation rendered to text, parsed / unparsed / re-parsed by the real "
                   "declast and compared field by field with the specification by TLC (Trace_DeclGrammar); g++ "
                   "std::is_same between the original text and Shroud's C++ rendering",
-        text="The grammar specification fixes, for each derivation (storage, cv placement before/after the type, 17 "
+        text="The grammar specification fixes, for each derivation (storage, cv placement before/after the type, 25 "
              "base types incl. std::string, std::vector<T>, classes and qualified names, pointer/reference chains "
              "with cv at every level, function pointers, parameter lists, method const, arrays, attributes, default "
              "values), the sentence, the meaning in the shape of Shroud's AST and the C++ rendering. TLC replays all "
